@@ -464,4 +464,73 @@ def bfsPath (c : Cfg) : Nat → List (State × List (Who × Ev)) → List State 
 def counterexample (c : Cfg) : Option (State × List (Who × Ev)) :=
   bfsPath c 60 [(init, [])] [init]
 
+/-! ### history counters that survive the worker (for "when stop() has returned, final was called
+    exactly once"): additions for `Props/C13.lean: stop_returned_final_once`
+
+    The per-worker monitor above is forgotten together with a terminated worker at the
+    `self._thrd = None` statement of `thread_stop`, i.e. BEFORE the call returns.  `Calls` counts
+    the init / final callback calls of the whole system since the most recent
+    `threading.Thread(...)` creation (since `__init__` if there was none), without saturation and
+    without ever being forgotten; the programs never read it. -/
+
+structure Calls where
+  nInit : Nat
+  nFin : Nat
+  deriving DecidableEq, Repr
+
+/-- effect of one labelled step on the history counters -/
+def Calls.upd (ev : Ev) (g : Calls) : Calls :=
+  match ev with
+  | .new => ⟨0, 0⟩
+  | .init => { g with nInit := g.nInit + 1 }
+  | .final => { g with nFin := g.nFin + 1 }
+  | _ => g
+
+/-- `Reach` with the history counters carried along: the same steps (`stepL` lists exactly the
+    successors of `step`, with their labels), from the same initial state -/
+inductive ReachC (c : Cfg) : State → Calls → Prop
+  | init : ReachC c init ⟨0, 0⟩
+  | step {s : State} {g : Calls} {p : Who × Ev × State} :
+      ReachC c s g → p ∈ stepL c s → ReachC c p.2.2 (g.upd p.2.1)
+
+/-- counters cut off at 2 ("0, 1, many"): the finite abstraction used for the computed set -/
+def Calls.sat (g : Calls) : Calls := ⟨min g.nInit 2, min g.nFin 2⟩
+
+/-- the controller's next step is the return of a `thread_stop` call -/
+def stopReturns (c : Cfg) (s : State) : Bool :=
+  (ctlStep c s).any fun p => match p.1 with | .ret .stop _ => true | _ => false
+
+/-- if a `thread_stop` call made on a started worker is about to return, init and final have been
+    called exactly once each (exactly zero times for an absent callback) since the thread of that
+    run was created -/
+def okStopRet (c : Cfg) (sg : State × Calls) : Bool :=
+  !(stopReturns c sg.1 && sg.1.started) ||
+  (decide (sg.2.nFin = expected c.hasFinal) && decide (sg.2.nInit = expected c.hasInit))
+
+/-- successors in the product of the model with the cut-off counters -/
+def stepC (c : Cfg) (sg : State × Calls) : List (State × Calls) :=
+  (stepL c sg.1).map fun p => (p.2.2, (sg.2.upd p.2.1).sat)
+
+def insertNewC (seen : List (State × Calls)) :
+    List (State × Calls) → List (State × Calls) → List (State × Calls) × List (State × Calls)
+  | [], acc => (seen, acc.reverse)
+  | x :: xs, acc =>
+    if seen.contains x then insertNewC seen xs acc else insertNewC (seen ++ [x]) xs (x :: acc)
+
+/-- breadth-first search in the product; states that violate a predicate are recorded but not
+    expanded (a broken program gives a small set on which the closure check fails quickly) -/
+def bfsC (c : Cfg) : Nat → List (State × Calls) → List (State × Calls) → List (State × Calls)
+  | 0, _, seen => seen
+  | fuel + 1, frontier, seen =>
+    let next := (frontier.filter fun sg => safe c sg.1 && okStopRet c sg).flatMap (stepC c)
+    let (seen', new) := insertNewC seen next []
+    if new.isEmpty then seen' else bfsC c fuel new seen'
+
+/-- the reachable set of the product, recomputed from the regenerated programs -/
+def RC (c : Cfg) : List (State × Calls) := bfsC c bfsFuel [(init, ⟨0, 0⟩)] [(init, ⟨0, 0⟩)]
+
+/-- everything the kernel has to check about a candidate invariant set of the product -/
+def certifiedC (c : Cfg) (r : List (State × Calls)) : Bool :=
+  r.contains (init, ⟨0, 0⟩) && r.all (okStopRet c) && r.all fun sg => (stepC c sg).all r.contains
+
 end Nxs.Worker
